@@ -13,10 +13,11 @@ RULE = ("(ref, query, k) cases are executed on symdel(seqs2=), nearest_neighbor(
 ASSUMPTIONS = ["an index object may change its internal state on look-ups (e.g. memoisation); only the answers are judged, and the BFS expands every new canonical state (all instance attributes, contents included) up to the depth bound",
                "LookupDB enumerates the 20-letter edit ball: k<=2 only for short strings (cost), k=3 only on U(AC,1)",
                "index state = (variant_dict / seq_dict contents, seqs, max_edits); other attributes do not exist on these classes (checked: vars())"]
-REQUIRED_CLASSES = {"all": ["q-equals-r-position-hit", "identical-sequence-d0", "duplicate-in-ref", "duplicate-in-query", "history-step", "same-object-both-sides", "history-changes-max_edits"]}
+REQUIRED_CLASSES = {"all": ["q-equals-r-position-hit", "identical-sequence-d0", "duplicate-in-ref", "duplicate-in-query", "history-step", "same-object-both-sides", "history-changes-max_edits", "progress-option"]}
 MIN_OUTCOMES = 10
 
 ENG = ("symdel2", "nn2", "SymdelDB", "LookupDB")
+PROGRESS = ("symdel2-progress", "SymdelDB-progress", "LookupDB-progress")      # progress bar on (tqdm silenced by TQDM_DISABLE)
 SAME = ("symdel2-same-object", "nn2-same-object")   # the very same list object passed as both collections
 
 
@@ -36,6 +37,12 @@ def run_engine(acc, eng, ref, query, k):
         return acc.call(lambda: SymdelDB(list(ref), k).lookup(list(query)))
     if eng == "LookupDB":
         return acc.call(lambda: LookupDB(list(ref)).lookup(list(query), max_edits=k))
+    if eng == "SymdelDB-progress":
+        return acc.call(lambda: SymdelDB(list(ref), k).lookup(list(query), progress=True))
+    if eng == "LookupDB-progress":
+        return acc.call(lambda: LookupDB(list(ref)).lookup(list(query), max_edits=k, progress=True))
+    if eng == "symdel2-progress":
+        return acc.call(pyrepseq.symdel, list(ref), k, seqs2=list(query), progress=True)
     raise HarnessError(eng)
 
 
@@ -208,9 +215,11 @@ def check_case(case, acc):
         for k in (1, 2, 3):
             expected = neighbors_within(list(ref), k, queries=list(query))
             _classes(acc, ref, query, expected)
-            for eng in ENG + (SAME if tuple(ref) == tuple(query) else ()):
-                if eng == "LookupDB" and k == 3:
+            for eng in ENG + (SAME if tuple(ref) == tuple(query) else ()) + (PROGRESS if k == 1 else ()):
+                if eng.startswith("LookupDB") and k == 3:
                     continue
+                if eng in PROGRESS:
+                    acc.cls("progress-option")
                 if eng in SAME:
                     acc.cls("same-object-both-sides")
                 _compare(acc, ("rq1", ref, query, k, eng), eng, ref, query, k, run_engine(acc, eng, ref, query, k), expected)
